@@ -694,7 +694,8 @@ pub fn decode_movie(buf: &[u8], tree: &[BoxNode], probs: &mut Problems) -> Movie
         }
     }
     for c in &moov.children {
-        if !matches!(&c.typ, b"mvhd" | b"trak" | b"udta" | b"mvex" | b"iods" | b"meta") {
+        // free space and extension boxes are legal anywhere; the statement lists what must be there, not what may
+        if !matches!(&c.typ, b"mvhd" | b"trak" | b"udta" | b"mvex" | b"iods" | b"meta" | b"free" | b"skip" | b"uuid") {
             probs.push(format!("moov: unexpected child '{}'", c.name()));
         }
     }
@@ -916,7 +917,7 @@ pub fn check_moov_structure(buf: &[u8], tree: &[BoxNode], expect_tracks: usize, 
         probs.push(format!("{} mdat boxes", nd));
     }
     for b in tree {
-        if !matches!(&b.typ, b"ftyp" | b"moov" | b"mdat") {
+        if !matches!(&b.typ, b"ftyp" | b"moov" | b"mdat" | b"free" | b"skip" | b"uuid" | b"wide") {
             probs.push(format!("unexpected top-level box '{}'", b.name()));
         }
     }
